@@ -106,7 +106,7 @@ func init() {
 				sendFixed("USD", "@world", "@a"),
 				"send [EUR *] (\n  source = @a\n  destination = @b\n)",
 				"save [EUR *] from @a",
-				sendFixed("USD", "@a", "@world"), sendAll("USD", "@a allowing overdraft up to %K", "@world"), sendFixed("USD", "@a", "@a"),
+				sendFixed("USD", "@a", "@world"), sendAll("USD", "@a allowing overdraft up to %K", "@world"), sendFixed("USD", "@a", "@a"), sendFixed("USD", "@a allowing unbounded overdraft", "@b"),
 				sendFixed("USD", "{ @a @world }", "{ 1/2 to @a 1/2 to @b }"), sendFixed("USD", "@a", "{ remaining kept }"),
 			}
 			second := []string{
